@@ -300,17 +300,26 @@ pub struct HTarget {
     /// makes every further tree stop after one step, so the call under test still returns. Checks
     /// that use a budget look at `exhausted()` and restrict what they compare afterwards.
     pub budget: Option<std::sync::Arc<std::sync::atomic::AtomicI64>>,
+    /// every evaluation sleeps this long first (wall-clock pacing for the checks that need a run
+    /// to outlast the library's progress timers; the values are unaffected)
+    pub sleep_us: u32,
 }
 
 impl HTarget {
     pub fn new(spec: Spec) -> Self {
-        HTarget { spec, budget: None }
+        HTarget { spec, budget: None, sleep_us: 0 }
+    }
+
+    pub fn with_sleep(mut self, us: u32) -> Self {
+        self.sleep_us = us;
+        self
     }
 
     pub fn with_budget(spec: Spec, rows: i64) -> Self {
         HTarget {
             spec,
             budget: Some(std::sync::Arc::new(std::sync::atomic::AtomicI64::new(rows))),
+            sleep_us: 0,
         }
     }
 
@@ -321,6 +330,9 @@ impl HTarget {
     pub fn batch<B: Backend>(&self, x: Tensor<B, 2>) -> Tensor<B, 1> {
         let dev = B::Device::default();
         let [n, d] = x.dims();
+        if self.sleep_us > 0 {
+            std::thread::sleep(std::time::Duration::from_micros(self.sleep_us as u64));
+        }
         if let Some(b) = &self.budget {
             if b.fetch_sub(n as i64, std::sync::atomic::Ordering::Relaxed) - (n as i64) < 0 {
                 return x.sum_dim(1).reshape([n]).mul_scalar(f64::NAN);
